@@ -241,7 +241,21 @@ def run(ctx):
                          and txt(sites[0].value.func) == "self.infinite_sequence"]
             id_nexts = [n for n in nexts if gens_defs and txt(n.args[0]) in [d[0] for d in gens_defs]]
             inline_gen = [n for n in nexts if isinstance(n.args[0], ast.Call) and txt(n.args[0].func) == "self.infinite_sequence"]
-            if inline_gen:
+            # ids taken from an enumerate() of the motif iteration itself: the count restarts at 0 with every pass of the enclosing
+            # (per-topology / per-motif-type) loop
+            enum_ids = None
+            if isinstance(loop, ast.For) and isinstance(loop.iter, ast.Call) and txt(loop.iter.func) == "enumerate" and isinstance(loop.target, ast.Tuple) and loop.target.elts \
+                    and isinstance(loop.target.elts[0], ast.Name) and g.par.loops_of(loop):
+                idn = loop.target.elts[0].id
+                for n in ast.walk(loop):
+                    if isinstance(n, (ast.Expr, ast.AugAssign)):
+                        c = _col_of(g, n)
+                        if c and c[0] == "motif_id" and idn in astx.names_in(c[2]) and not any(k.arg == "start" for k in loop.iter.keywords) and len(loop.iter.args) == 1:
+                            enum_ids = n
+            if enum_ids is not None:
+                o3.violated(fn, loop, f"the motif ids are the counter of `{txt(loop.iter)[:60]}`, which restarts at 0 on every pass of the enclosing loop: the first motif of every "
+                                      "topology / motif type gets id 0 - distinct instances share an id", shape_free=True)
+            elif inline_gen:
                 o3.violated(fn, inline_gen[0], "next(self.infinite_sequence()) creates a fresh counter for every draw: every motif gets id 0")
             elif len(gens_defs) != 1:
                 relooped = [n for n in astx.walk_fn(fn.node) if isinstance(n, ast.Assign) and isinstance(n.value, ast.Call) and txt(n.value.func) == "self.infinite_sequence"]
@@ -426,10 +440,20 @@ def run(ctx):
                     if not says_two:
                         bad_len.append(t if truth else f"not ({t})")
                 elif isinstance(c, ast.Call) and txt(c.func) == "isinstance" and len(c.args) == 2 and txt(c.args[0]) in (f"{es}[0]", f"{es}[1]", f"{es}[-1]"):
-                    kinds = txt(c.args[1])
-                    is_container = any(k in kinds for k in ("tuple", "list"))
-                    is_scalar = "int" in kinds and not is_container
-                    if (is_container and not truth) or (is_scalar and truth):
+                    karg = c.args[1]
+                    if isinstance(karg, ast.BoolOp):
+                        karg = karg.values[0]      # `tuple or list` IS `tuple`: a class is truthy, `or` returns its first operand
+                    kset = {txt(x) for x in (karg.elts if isinstance(karg, ast.Tuple) else [karg])}
+                    kinds = " ".join(sorted(kset))
+                    covers_both = {"tuple", "list"} <= kset or any(k.split(".")[-1] in ("Sequence", "Iterable", "Collection", "Sized", "Container") for k in kset)
+                    is_container = bool(kset & {"tuple", "list"}) or covers_both
+                    is_scalar = bool(kset & {"int", "numbers.Integral", "Integral", "np.integer"}) and not is_container
+                    if is_container and not covers_both and not truth:
+                        miss = sorted({"tuple", "list"} - kset)[0]
+                        o.violated(fn, c, f"`{txt(c)}` recognises an edge list only by `{kinds}`" + (" (`A or B` between classes evaluates to A)" if isinstance(c.args[1], ast.BoolOp) else "")
+                                   + f": a builder that returns its two edges as {miss}s is taken for ONE bare edge - the pair of edges is stored as a single malformed entry", shape_free=True)
+                        has_kind = True
+                    elif (is_container and not truth) or (is_scalar and truth):
                         has_kind = True
                     else:
                         unknown.append(t)
